@@ -84,6 +84,13 @@ func evalRaw(e *rsx.Env, rq rsx.Req, lookups bool) (bool, bool, string, string) 
 	if o.Panic != "" {
 		return false, true, "panic", "panic: " + o.Panic
 	}
+	if lookups && e.Views != nil {
+		// a read-only transaction and a write transaction holding the same routes uncommitted must
+		// answer like the router (route, tsr flag, parameters of the adjusted match)
+		if d := e.Views.Disagree(rq, &o); d != "" {
+			return false, true, "txn-disagree", fmt.Sprintf("%s: set %s request %s\n    router: %s", d, rsx.SetString(e.Set), rq, o)
+		}
+	}
 	nontrivial := want.Tsr || (want.Route == nil && e.Contenders(rq.Method, rq.Host, adjust(mp)) > 0)
 	if !decided || e.GrayPrefixedCatchAll(o.LkID, o.LkParams) || e.GrayPrefixedCatchAll(o.Cap.Handler, o.Cap.Params) {
 		return true, nontrivial, "", ""
@@ -324,6 +331,11 @@ func runPool(c *mc.Ctx, r *mc.Result, pd poolDef) {
 			r.Count("sets_rejected_by_router", 1)
 			return
 		}
+		if err := e.WithViews(); err != nil {
+			r.Violate("rsx", "txn-disagree", err.Error()+" set "+rsx.SetString(full), Case{Set: full, Prof: pd.prof})
+			return
+		}
+		defer e.Done()
 		r.Count("sets", 1)
 		r.States++
 		for _, h := range pd.hosts {
@@ -448,6 +460,10 @@ func replay(c *mc.Ctx, raw json.RawMessage) string {
 	if err != nil {
 		return ""
 	}
+	if err := e.WithViews(); err != nil {
+		return err.Error()
+	}
+	defer e.Done()
 	_, _, _, msg := eval(e, cs.Req, true)
 	return msg
 }
